@@ -180,10 +180,8 @@ def do_persist(w, op, index):
     how = op["how"]
     try:
         m2 = faults.persist(w.m, how)
-    except Exception as e:  # noqa: BLE001
-        if exc_in_harness(e):
-            raise HarnessError(str(e)) from e
-        w.violate("copy_equal", f"{how} of the module raised {exc_text(e)}", index)
+    except faults.PersistFailed as e:
+        w.violate("copy_equal", str(e), index, {"how": how})
         return {"outcome": "violation"}
     a, b = snap.snapshot(w.m), snap.snapshot(m2)
     if a != b:
